@@ -441,6 +441,174 @@ def r14_4(prog, rep):
         rep.broken_("rule=R14.4 no store to the limit field %s found in echsd.c" % fld)
 
 
+def _fcalls(f):
+    for b, i, x, line in f.cfg.all_elems():
+        if isinstance(x, dict):
+            for c in calls(x):
+                yield c
+
+
+def r14_5(prog, rep, rid="R14.5"):
+    """The deadline reaches the job as a signal (the alarm handler sends it to the spawned pid), and the job inherits the executor's
+    signal mask: the spawn has no attributes that would set another one.  The executor blocks that very signal around its own critical
+    sections, so on every path to the spawn the last thing done to the mask must be the unblocking — whatever the task asks for (mail
+    files, journal, ...).  Walk of the function that spawns, with the mask as a ghost state."""
+    from ..absw import AbsWalk
+    X = "echsx.c"
+    hnd = None
+    sig = None
+    for f in prog.fns_in(X):
+        if not f.cfg:
+            continue
+        for c in _fcalls(f):
+            if c.get("fn") == "kill" and len(c.get("a", ())) == 2:
+                v = const_eval(f, strip_casts(c["a"][1]))
+                if v is not None and v not in (0, 15, 9):
+                    hnd, sig = f, v
+    if sig is None:
+        raise AnalysisBroken("R14.5: the signal the alarm handler sends to the job was not found")
+
+    def mask_effect(f):
+        """'block' / 'unblock' / None for a helper that changes the signal mask."""
+        how = None
+        adds = set()
+        for c in _fcalls(f):
+            if c.get("fn") == "sigprocmask" and c.get("a"):
+                how = const_eval(f, strip_casts(c["a"][0]))
+            if c.get("fn") == "sigaddset" and len(c.get("a", ())) == 2:
+                v = const_eval(f, strip_casts(c["a"][1]))
+                adds.add(v if v is not None else "?")
+            if c.get("fn") == "sigfillset":
+                adds.add(sig)
+        if how is None:
+            return None
+        if how == 0 and (sig in adds or "?" in adds):
+            return "block"
+        if how == 2:
+            return "block" if (sig in adds or "?" in adds) else "unblock"
+        if how == 1 and (sig in adds):
+            return "unblock"
+        return None
+    eff = {}
+    spawners = set()
+    for f in prog.fns_in(X):
+        if not f.cfg:
+            continue
+        e = mask_effect(f)
+        if e:
+            eff[f.name] = e
+    # the spawn of the job (the mailer is spawned as well, later, and is not what the limit is about)
+    spawners = {prog.fn("run_task", X).name}
+    for f in prog.fns_in(X):
+        if f.cfg and any((c.get("fn") or "") == "posix_spawnattr_setsigmask" for c in _fcalls(f)):
+            raise AnalysisBroken("R14.5: the spawn sets a signal mask of its own (posix_spawnattr_setsigmask): re-read the rule")
+    if not spawners or "block" not in eff.values() or "unblock" not in eff.values():
+        raise AnalysisBroken("R14.5: spawner / mask helpers not found (%s, %s)" % (sorted(spawners), eff))
+    n = 0
+    # a spawner that empties the mask itself in front of posix_spawn() needs nothing from its callers
+    rt = prog.fn("run_task", X)
+    own = []
+
+    def eff_rt(b, i, x, store):
+        if isinstance(x, dict) and x.get("k") == "call":
+            nm = x.get("fn") or ""
+            if nm in eff:
+                return {"$mask": 1 if eff[nm] == "block" else 0}
+            if nm in ("posix_spawn", "posix_spawnp"):
+                own.append(store.get("$mask"))
+        return None
+    AbsWalk(rt, set(), init={"$mask": -1}, effect=eff_rt, max_states=20000).run()
+    if own and all(m == 0 for m in own):
+        rep.ok(rid, "%s/signal-deliverable-at-the-spawn" % rt.name, rt.loc(), "the mask is emptied inside the spawning function itself")
+        return
+    for f in prog.fns_in(X):
+        if not f.cfg or f.name in spawners:
+            continue
+        sites = [c for c in _fcalls(f) if c.get("fn") in spawners]
+        if not sites:
+            continue
+        seen = []
+
+        def effect(b, i, x, store, seen=seen):
+            if isinstance(x, dict) and x.get("k") == "call":
+                nm = x.get("fn")
+                if nm in eff:
+                    return {"$mask": 1 if eff[nm] == "block" else 0}
+                if nm in spawners:
+                    seen.append((store.get("$mask"), x.get("line")))
+            return None
+        AbsWalk(f, set(), init={"$mask": -1}, effect=effect, max_states=20000).run()
+        n += 1
+        key = "%s/signal-deliverable-at-the-spawn" % f.name
+        badm = sorted({(m, l) for m, l in seen if m != 0}, key=str)
+        if not seen:
+            raise AnalysisBroken("R14.5: the spawn in %s is not reached by the walk" % f.name)
+        if badm:
+            m, l = badm[0]
+            rep.fail(rid, key, f.loc(l), "the job is spawned on a path on which signal %d — the one the alarm handler %s() sends when the "
+                     "limit is over — is %s: the job inherits the mask, the signal stays pending and the job runs to its natural end"
+                     % (sig, hnd.name, "still blocked" if m == 1 else "as inherited from the caller (blocked in main)"))
+        else:
+            rep.ok(rid, key, f.loc(), "on every path to the spawn the mask was last set to empty (signal %d deliverable)" % sig)
+    if n < 1:
+        rep.broken_("rule=R14.5 no caller of the spawning function found")
+
+
+def _rec_of(a):
+    """Record a member belongs to, looking through anonymous struct/union members."""
+    r = a.get("rec") or ""
+    b = a.get("b")
+    while not r and isinstance(b, dict) and b.get("k") == "mem" and b.get("f") == "":
+        r = b.get("rec") or ""
+        b = b.get("b")
+    return r
+
+
+def r14_6(prog, rep, rid="R14.6"):
+    """The executor turns the task's DUE instant into seconds since the epoch with a routine that reads the date and time fields as they
+    are: an instant that still carries a zone tag (`DUE;TZID=...`) must have been converted to UTC by the reader that built the task,
+    the way DTSTART and DTEND are.  Every store to a task field that the executor hands to echs_instant_to_epoch() takes its value
+    from echs_instant_to_utc()."""
+    flds = set()
+    for f in prog.fns_in("echsx.c"):
+        if not f.cfg:
+            continue
+        for c in _fcalls(f):
+            if c.get("fn") == "echs_instant_to_epoch" and c.get("a"):
+                a = strip_casts(f.cfg.resolve(c["a"][0]))
+                a = strip_casts(f.expand(a)) if hasattr(f, "expand") else a
+                if a.get("k") == "mem" and "task" in _rec_of(a):
+                    flds.add(a["f"])
+    if not flds:
+        raise AnalysisBroken("R14.6: the executor no longer converts a task field with echs_instant_to_epoch()")
+    UTC = ("echs_instant_to_utc",)
+    n = 0
+    for f in prog.fns_in("evical.c"):
+        if not f.cfg:
+            continue
+        for b, i, x, line in f.cfg.all_elems():
+            for l, kind, nn in writes(f.cfg.resolve(x)):
+                l_ = strip_casts(l)
+                if not (l_.get("k") == "mem" and l_["f"] in flds and "task" in _rec_of(l_) and "instant" in (l_.get("t") or "")):
+                    continue
+                if not (nn.get("k") == "bin" and nn["op"] == "="):
+                    continue
+                n += 1
+                key = "%s/%s-in-utc" % (f.name, l_["f"])
+                rhs = strip_casts(f.expand(nn["r"]))
+                if rhs.get("k") == "call" and rhs.get("fn") in UTC:
+                    rep.ok(rid, key, f.loc(nn.get("line", line)), "%s is stored converted (%s)" % (lv(l_), show(rhs)[:50]))
+                elif rhs.get("k") == "call" and rhs.get("fn") in ("echs_nul_instant", "echs_max_instant", "echs_min_instant"):
+                    rep.ok(rid, key, f.loc(nn.get("line", line)), "%s is stored as a constant" % lv(l_))
+                else:
+                    rep.fail(rid, key, f.loc(nn.get("line", line)),
+                             "the task's %s is stored as read (`%s`) without echs_instant_to_utc(): with a TZID the executor computes the "
+                             "epoch of an instant whose month/day bytes still carry the zone tag, the alarm is set for a time far away "
+                             "and the job is never killed" % (l_["f"], show(nn)[:60]))
+    if n < 1:
+        rep.broken_("rule=R14.6 no store to the executor's instant field(s) %s found in evical.c" % sorted(flds))
+
+
 def run(prog, rep, tier, snap):
     rep.rule("R14.1", "unit flow ms -> s across echsd's request writer and echsx's alarm", 3)
     rep.call(r14_1, prog, rep)
@@ -453,6 +621,10 @@ def run(prog, rep, tier, snap):
     rep.call(c08.r08_6, prog, rep)
     rep.rule("R14.4", "the per-run limit in the daemon is written only from an occurrence's duration", 1)
     rep.call(r14_4, prog, rep)
+    rep.rule("R14.5", "the deadline signal is deliverable to the job: the mask is emptied on every path to the spawn", 1)
+    rep.call(r14_5, prog, rep)
+    rep.rule("R14.6", "an instant the executor turns into an epoch (DUE) is stored in UTC by the reader", 1)
+    rep.call(r14_6, prog, rep)
     from . import c18
     rep.rule("R18.8", "the duration reader reads what echsd/echsq write for limits (every grammatical spelling, incl. PnDTnH...; shared with C18)", 1)
     rep.call(c18.r18_8, prog, rep)
